@@ -112,30 +112,24 @@ impl PushParser {
         let mut depth = 0;
         for token in code.split_whitespace() {
             if token.starts_with("INT[") {
-                PushParser::parse_vector(
-                    push_state,
-                    depth,
-                    &VectorType::Int,
-                    &token[4..token.len() - 1],
-                );
+                // a token without room for the closing bracket is a malformed literal: dropped
+                if let Some(elements) = token.get(4..token.len() - 1) {
+                    PushParser::parse_vector(push_state, depth, &VectorType::Int, elements);
+                }
                 continue;
             }
             if token.starts_with("FLOAT[") {
-                PushParser::parse_vector(
-                    push_state,
-                    depth,
-                    &VectorType::Float,
-                    &token[6..token.len() - 1],
-                );
+                // a token without room for the closing bracket is a malformed literal: dropped
+                if let Some(elements) = token.get(6..token.len() - 1) {
+                    PushParser::parse_vector(push_state, depth, &VectorType::Float, elements);
+                }
                 continue;
             }
             if token.starts_with("BOOL[") {
-                PushParser::parse_vector(
-                    push_state,
-                    depth,
-                    &VectorType::Bool,
-                    &token[5..token.len() - 1],
-                );
+                // a token without room for the closing bracket is a malformed literal: dropped
+                if let Some(elements) = token.get(5..token.len() - 1) {
+                    PushParser::parse_vector(push_state, depth, &VectorType::Bool, elements);
+                }
                 continue;
             }
             if "(" == token {
